@@ -307,7 +307,7 @@ fn directed() -> Vec<(String, bool)> {
 }
 
 pub fn run(ctx: &Ctx) -> Report {
-    let n = ctx.size(600_000, 10_000_000) as usize;
+    let n = ctx.size(1_200_000, 10_000_000) as usize;
     let batches = (n + 199) / 200;
     par_items(ctx.threads, batches + 1, ctx.seed, move |i, seed, rep| {
         let mut rng = Rng::new(seed);
